@@ -4,8 +4,10 @@ import (
 	"context"
 	"encoding/json"
 	"fmt"
+	"github.com/blevesearch/bleve/v2/index/scorch"
 	"math"
 	"os"
+	"path/filepath"
 	"regexp"
 	"sort"
 	"strings"
@@ -543,6 +545,34 @@ func genBoolTermsMinShould(r *Rng, kinds map[string]int) (query.Query, string) {
 	return bq, sb.String()
 }
 
+// hot shape: a conjunction of plain term-type clauses, one of them over a field without term vectors
+// (the boolean field): under score "none" scorch intersects their postings bitmaps segment by segment,
+// with a special case for terms held by a single document of a segment
+func genConjOfTerms(r *Rng, kinds map[string]int) (query.Query, string) {
+	kinds["conjunction-of-terms"]++
+	n := 2 + r.Intn(2)
+	qs := make([]query.Query, 0, n)
+	var sb strings.Builder
+	v := r.Bool()
+	bq := bleve.NewBoolFieldQuery(v)
+	bq.SetField("b0")
+	qs = append(qs, bq)
+	if v {
+		sb.WriteString(" T " + hs("b0") + " " + hs("T"))
+	} else {
+		sb.WriteString(" T " + hs("b0") + " " + hs("F"))
+	}
+	for i := 1; i < n; i++ {
+		f := []string{"t0", "t1"}[r.Intn(2)]
+		w := c02Vocab[r.Intn(5)]
+		q := bleve.NewTermQuery(w)
+		q.SetField(f)
+		qs = append(qs, q)
+		fmt.Fprintf(&sb, " T %s %s", hs(f), hs(w))
+	}
+	return bleve.NewConjunctionQuery(qs...), fmt.Sprintf("C %d%s", n, sb.String())
+}
+
 func genQuery(r *Rng, depth int, ids []string, kinds map[string]int) (query.Query, string) {
 	if depth <= 0 || r.Chance(35) {
 		return genLeaf(r, ids, kinds)
@@ -582,6 +612,9 @@ func genQuery(r *Rng, depth int, ids []string, kinds map[string]int) (query.Quer
 	}
 	switch r.Intn(3) {
 	case 0:
+		if r.Chance(20) {
+			return genConjOfTerms(r, kinds)
+		}
 		kinds["conjunction"]++
 		qs, t := kids(1, 4)
 		return bleve.NewConjunctionQuery(qs...), "C " + t
@@ -650,6 +683,7 @@ func genQuery(r *Rng, depth int, ids []string, kinds map[string]int) (query.Quer
 
 type c02Index struct {
 	idx    bleve.Index
+	dir    string // on-disk variants
 	engine string
 	live   map[string]c02Doc
 	ids    []string // every id ever used
@@ -663,13 +697,60 @@ func c02Dbg(f string, a ...interface{}) {
 	}
 }
 
+// "scorch-disk": an on-disk scorch index whose first documents are force-merged into one file segment
+// (merged segments use the compact 1-hit postings encoding for rare terms of fields without term
+// vectors) and whose later batches form further segments; background merging is switched off
+func c02DiskIndex() (bleve.Index, string) {
+	dir, err := os.MkdirTemp("", "verif-c02-")
+	must(err)
+	idx, err := bleve.NewUsing(filepath.Join(dir, "i"), c02Mapping(), scorch.Name, scorch.Name, map[string]interface{}{
+		"scorchMergePlanOptions": map[string]interface{}{"floorSegmentSize": 1, "maxSegmentsPerTier": 1000, "segmentsPerMergeTask": 1000}})
+	must(err)
+	return idx, dir
+}
+
+func (ci *c02Index) close() {
+	ci.idx.Close()
+	if ci.dir != "" {
+		os.RemoveAll(ci.dir)
+	}
+}
+
 func buildC02Index(r *Rng, engine string) *c02Index {
-	ci := &c02Index{idx: newIndexWith(engine, c02Mapping()), engine: engine, live: map[string]c02Doc{}}
+	ci := &c02Index{engine: engine, live: map[string]c02Doc{}}
+	if engine == "scorch-disk" {
+		ci.idx, ci.dir = c02DiskIndex()
+	} else {
+		ci.idx = newIndexWith(engine, c02Mapping())
+	}
 	c02Dbg("NEWINDEX %s", engine)
 	nDocs := r.Range(4, 14)
+	mergeAt := -1
+	if engine == "scorch-disk" {
+		mergeAt = nDocs/2 + r.Intn(2)
+	}
 	batch := ci.idx.NewBatch()
 	for i := 0; i < nDocs; i++ {
+		if i == mergeAt {
+			must(ci.idx.Batch(batch))
+			batch = ci.idx.NewBatch()
+			if adv, err := ci.idx.Advanced(); err == nil {
+				if sc, ok := adv.(*scorch.Scorch); ok {
+					ctx, cancel := context.WithTimeout(context.Background(), 5*time.Second)
+					_ = sc.ForceMerge(ctx, nil)
+					cancel()
+				}
+			}
+		}
 		d := genC02Doc(r, i)
+		if mergeAt > 0 && i < mergeAt {
+			// hot corpus: in the segment that will be merged each boolean value is held by one document only
+			d.flag = nil
+			if i < 2 {
+				v := i == 0
+				d.flag = &v
+			}
+		}
 		ci.live[d.id] = d
 		ci.ids = append(ci.ids, d.id)
 		must(batch.Index(d.id, d.asMap()))
@@ -715,7 +796,7 @@ func runC02(t *Trace, r *Rng, tier string, _ []string) {
 	kinds := map[string]int{}
 	nonEmpty, nonTotal := 0, 0
 	for ix := 0; ix < nIdx; ix++ {
-		engine := []string{"scorch", "upsidedown"}[ix%2]
+		engine := []string{"scorch", "upsidedown", "scorch-disk"}[ix%3]
 		ci := buildC02Index(r, engine)
 		docs := ci.sortedLive()
 		var cb strings.Builder
@@ -726,9 +807,12 @@ func runC02(t *Trace, r *Rng, tier string, _ []string) {
 		corpus := cb.String()
 		for qi := 0; qi < nQ; qi++ {
 			q, ftok := genQuery(r, 3, ci.ids, kinds)
+			if engine == "scorch-disk" && r.Chance(25) {
+				q, ftok = genConjOfTerms(r, kinds)
+			}
 			// scorch is compared with the transposition-aware reading of fuzziness (what its automaton
 			// implements), and additionally with the documented one where the two differ
-			tok, sensitive := resolveFuzzy(ftok, engine == "scorch")
+			tok, sensitive := resolveFuzzy(ftok, strings.HasPrefix(engine, "scorch"))
 			docTok, _ := resolveFuzzy(ftok, false)
 			op := "search " + corpus + " | " + tok
 			for _, opt := range []string{"plain", "noscore", "loc+explain"} {
@@ -779,12 +863,12 @@ func runC02(t *Trace, r *Rng, tier string, _ []string) {
 					nonTotal++
 				}
 				t.Emit("search/"+engine+"/"+opt, nt, op, res)
-				if sensitive && engine == "scorch" {
+				if sensitive && strings.HasPrefix(engine, "scorch") {
 					t.Emit("search/scorch/fuzzy-transposition-vs-documented-levenshtein", nt, "search "+corpus+" | "+docTok, res)
 				}
 			}
 		}
-		ci.idx.Close()
+		ci.close()
 	}
 	for k, v := range kinds {
 		t.Set("querykind_"+k, v)
@@ -924,7 +1008,7 @@ func runC08(t *Trace, r *Rng, tier string, _ []string) {
 			}
 		}
 		reader.Close()
-		ci.idx.Close()
+		ci.close()
 	}
 	for k, v := range kinds {
 		t.Set("querykind_"+k, v)
